@@ -15,11 +15,12 @@ theorem exists_snoc_of_ne_nil {α : Type} (A : List α) (h : A ≠ []) : ∃ A' 
 
 /-- side conditions on the block tree for analysing a walk from `cur` to `dest`: parent links go down in height, the
 two blocks have a common ancestor (they descend from one genesis block), and the environment knows the blocks to
-apply under their own ids -/
+apply and the destination under their own ids -/
 structure WalkTree (e : Env) (cur dest : Nat) : Prop where
   lower : ParentLower e
   common : ∃ c, c ∈ ancestors e (e.blocks.length + 1) cur ∧ c ∈ ancestors e (e.blocks.length + 1) dest
   ids : ∀ bi ∈ (undoTodo e cur dest).2, (e.block bi).id = bi
+  destId : (e.block dest).id = dest
 
 /-- where an intermediate state of a walk stands: in the undo phase after a (possibly empty) prefix `A` of the blocks
 to undo, or in the apply phase after a non-empty prefix `A` of the blocks to apply -/
